@@ -235,6 +235,10 @@ impl Tables {
 thread_local! {
     /// naming style of the input variables of the case being built (set by `VmCase::real_with_order`)
     static NAME_STYLE: std::cell::Cell<u64> = const { std::cell::Cell::new(0) };
+    /// how many unrelated, never-seen variable names `real_with_order` creates between building the program
+    /// and declaring the inputs (C16: what other names the process has created must not matter)
+    pub static OTHER_NAMES: std::cell::Cell<u32> = const { std::cell::Cell::new(0) };
+    static OTHER_NAMES_SALT: std::cell::Cell<u64> = const { std::cell::Cell::new(0) };
 }
 
 /// Input variable names: short ones, and long ones (40 and 70 bytes) that differ from each other in a
@@ -346,6 +350,18 @@ impl VmCase {
             .map(|p| t.program(p))
             .collect::<Option<Vec<_>>>()
             .ok_or("instruction without a real counterpart")?;
+        let unrelated = OTHER_NAMES.with(std::cell::Cell::get);
+        if unrelated > 0 {
+            let salt = OTHER_NAMES_SALT.with(|s| {
+                let v = s.get();
+                s.set(v + 1);
+                v
+            });
+            let thread = format!("{:?}", std::thread::current().id());
+            for i in 0..unrelated {
+                let _ = VariableName::from(format!("unrelated {thread} {salt} {i}").as_str());
+            }
+        }
         let default_order: Vec<usize> = (0..self.inputs.len()).collect();
         macro_rules! bind_inputs {
             ($b:ident) => {
